@@ -220,7 +220,7 @@ class Lab:
             if op["k"] in ("gen", "example"):
                 envi = (envs[i - 1] if envs else 0)
                 rc, out, err = self.run_goa(ws, op["k"], pair[op["d"] - 1], envi)
-                ev.update({"d": op["d"], "rc": rc, "env": envi})
+                ev.update({"d": op["d"], "rc": rc, "env": envi, "same": False})
                 if rc != 0:
                     ev["stderr"] = err[-1500:]
             else:
@@ -257,10 +257,10 @@ class Lab:
         return events, snaps
 
     # ------------------------------------------------------------- in-process
-    def inproc(self, design, rounds=2):
-        """eval once, generator.Generate `rounds` times in ONE process (gen then example each round);
-        returns the list of {files} per (round, cmd)."""
-        self.nws += 1
+    def inproc(self, refs, design, cids, rounds=2):
+        """One process: evaluate the design once, then generator.Generate gen, example, gen, example ... over the
+        same directory (the driver removes the sub-directories of gen/ before each gen, as the command line does).
+        Returns the case (events + snapshots) in the same form as replay()."""
         ws = os.path.join(self.root, "ws", "inproc-" + design)
         os.makedirs(os.path.join(ws, "cmdinproc"))
         open(os.path.join(ws, "go.mod"), "w").write(GOMOD_INPROC % (MODULE, self.ctx.repo, core.HARNESS, os.path.join(core.VERIF, "stubs", "clue")))
@@ -273,12 +273,29 @@ class Lab:
                            stdout=subprocess.PIPE, stderr=subprocess.STDOUT, text=True, timeout=900)
         if p.returncode != 0:
             raise core.Infra("cannot build the in-process driver for %s:\n%s" % (design, p.stdout[-3000:]))
+        snap = {q: v for q, v in self.snapshot(ws).items() if not q.startswith("cmdinproc/")}
         p = subprocess.run([binp, "-out", ".", "-rounds", str(rounds), "-cmds", "gen,example",
                             "--cmd=$ goa gen %s/designs/%s" % (MODULE, design)], cwd=ws, env=self.ctx.goenv(),
                            stdout=subprocess.PIPE, stderr=subprocess.PIPE, text=True, timeout=600)
+        recs = [json.loads(l) for l in p.stdout.splitlines() if l.startswith("{")]
+        events = [{"ev": "reset", "cfg": self.cfg(refs, [design], [], cids), "pair": [design]}]
+        stamps = {q: 0 for q in snap}
+        snaps = [snap]
+        for i, r in enumerate(recs, 1):
+            new = {q: (v["sha"], v["mtime"]) for q, v in r["files"].items()}
+            for q in new:
+                if q not in snap or snap[q] != new[q]:
+                    stamps[q] = i
+            stamps = {q: stamps[q] for q in new}
+            snap = new
+            snaps.append(snap)
+            events.append({"ev": r["cmd"], "d": 1, "rc": 0, "same": i > 1, "round": r["round"],
+                           "tree": [{"p": segs(q), "c": cids.of(snap[q][0]), "s": stamps[q]} for q in sorted(snap)]})
         if p.returncode != 0:
-            return {"failed": True, "rc": p.returncode, "stderr": p.stderr[-3000:], "rounds": []}
-        return {"failed": False, "rounds": [json.loads(l) for l in p.stdout.splitlines() if l.startswith("{")]}
+            events.append({"ev": "gen" if len(recs) % 2 == 0 else "example", "d": 1, "rc": p.returncode, "same": True,
+                           "stderr": p.stderr[-1500:], "tree": events[-1].get("tree", [])})
+            snaps.append(snap)
+        return events, snaps
 
 
 # ---------------------------------------------------------------------- explanation of a rejected event
@@ -345,12 +362,13 @@ def explain(refs, pair, prev, cur, ev):
 
 
 def finding_key(ev, diffs):
+    site = ev["ev"] + ("-again-in-process" if ev.get("same") else "")
     if not diffs:
-        return "C09/%s/unexplained" % ev["ev"]
+        return "C09/%s/unexplained" % site
     what, path, _ = diffs[0]
     if what == "command-failed":
-        return "C09/%s/command-failed" % ev["ev"]
-    return "C09/%s/%s/%s" % (ev["ev"], family(path), what)
+        return "C09/%s/command-failed" % site
+    return "C09/%s/%s/%s" % (site, family(path), what)
 
 
 # ---------------------------------------------------------------------- random histories beyond TLC's alphabet
